@@ -207,11 +207,11 @@ FreeSimSpec == FreeInit /\ [][FreeSimNext]_vars
 \* does run, time passes when nothing else can happen - stop() returns (C18: "when stop returns ..." presupposes it does),
 \* and it returns with every connection socket closed and the I/O thread ended.  No depth bound and no history
 \* variables here (n, hist, lastAct, M stay constant): a state constraint would hide non-progress cycles.
-\* STATUS: experimental, not used by any registered check.  The first run (without the timing assumption below) produced a
-\* genuine counterexample of the model: ticks may pass while the I/O thread is never scheduled, the stopping thread's
-\* bounded join gives up and stop() returns with the I/O thread alive.  With the assumption TLC did not exhaust the graph
-\* within 25 minutes (1.7 M states, depth > 2 500 at a constant frontier: some component of S still grows under free
-\* interleaving at a fixed instant); finding it is open work (DESIGN.md section 12).
+\* Used by C18 (configurations A, HOLD2, T1; thorough TS2): TLC exhausts the graph (1.5 k - 50 k states) and checks
+\* StopReturns and ClosedWhenStopped; with MaxTime too small for the wait loop StopReturns must be violated (guard).
+\* History: without the timing assumption below TLC produced a genuine counterexample of the model - seconds pass while the
+\* I/O thread is never scheduled, the stopping thread's bounded join gives up and stop() returns with the I/O thread alive;
+\* and an environment that may feed a DPA again before the reader has handled the first made the graph infinite.
 LiveEnv ==
   \* (timing assumption: a second passes only when no thread of the node can run - threads are not starved for seconds;
   \*  without it the stopping thread's bounded joins may give up on a thread that was simply never scheduled)
@@ -219,7 +219,7 @@ LiveEnv ==
   (IF Faults THEN {[a |-> "peer_close", c |-> c] : c \in {x \in ConnIds : Usable(x)}} ELSE {}) \cup
   (IF "dpa" \in Alpha
      THEN {[a |-> "feed", c |-> c, ms |-> <<Mk("DP", 282, FALSE, 1, 1, 0, PeerOrder[1], "", 2001, FALSE, TRUE, FALSE, <<>>, <<>>, FALSE)>>]
-             : c \in {x \in ConnIds : Whole(x) /\ S.conn[x].st = "DISCONNECTING" /\ S.conn[x].netIn = <<>>}}
+             : c \in {x \in ConnIds : Whole(x) /\ S.conn[x].st = "DISCONNECTING" /\ S.conn[x].netIn = <<>> /\ S.conn[x].readQ = <<>>}}   \* (one DPA per connection)
      ELSE {})
 LiveActs == LiveEnv \cup {[a |-> "step", th |-> st.th, c |-> st.c] : st \in Steps(S)}
 LiveInit == LET S1 == StepOf(InitState, StartAct)
